@@ -1,6 +1,6 @@
 //go:build verif
 
-//verif:bounds whole-parser runs on a table of N fully symbolic payload bytes (quick 2, thorough 3) behind a valid header; templates with unconstrained holes: a Device with a dual-name path of 8 symbolic name bytes, a Field with a Connection buffer whose length prefix is symbolic, a path-declared Name followed by a Scope directive with all eight name bytes symbolic, a Scope(\\_SB_) whose body is 1..2 symbolic bytes, a Buffer whose size operand is a nested Buffer with both package-length bytes drawn from a menu of 20 values (0..17, 0x41, 0xff)
+//verif:bounds whole-parser runs on a table of N fully symbolic payload bytes (quick 2, thorough 3) behind a valid header; templates with unconstrained holes: a Device with a dual-name path of 8 symbolic name bytes, a Field with a Connection buffer whose length prefix is symbolic, a path-declared Name followed by a Scope directive with all eight name bytes symbolic, a Method whose PkgLength cuts its name short (2 symbolic bytes), a Scope(\\_SB_) whose body is 1..2 symbolic bytes, a Buffer whose size operand is a nested Buffer with both package-length bytes drawn from a menu of 20 values (0..17, 0x41, 0xff)
 //verif:assumes the table is a raw region of exactly header+payload bytes (any access outside it is a violation); error-message formatting (kfmt.Fprintf) is stubbed while encoding; exceeding the call-depth / instruction budget counts as non-termination
 //verif:override github.com/ProjectSerenity/firefly/kernel/kfmt.Fprintf vfNoFprintf
 package aml
@@ -81,13 +81,22 @@ func vfParse(h *table.SDTHeader) {
 	}
 	zzverif.Reach("parsed-or-rejected")
 	vfCheckTree(tree)
+	// accepted or rejected, what is left in the tree can be traversed and printed
+	// (quick tier: only in the harnesses that ask for it; printing doubles the cost of the two widest ones)
+	if vfPrint || zzverif.Tier() == 1 {
+		printPanicked := zzverif.Catch(func() { tree.PrettyPrint(vfDiscard{}) })
+		zzverif.Assert(!printPanicked, "the tree can be printed after parsing, whether the table was accepted or rejected")
+	}
 }
+
+var vfPrint bool
 
 // Every payload of N bytes.
 //verif:split 6
 //verif:budget-is-violation
 //verif:depth 120
 func Verif_C12_parse_bytes() {
+	vfPrint = false
 	n := 1 + zzverif.Choice("len", zzverif.Param("bytes", 2, 3))
 	h, payload := vfTable(n)
 	_ = payload
@@ -98,6 +107,7 @@ func Verif_C12_parse_bytes() {
 //verif:budget-is-violation
 //verif:depth 120
 func Verif_C12_tmpl_device_path() {
+	vfPrint = true
 	h, p := vfTable(12)
 	p[0], p[1], p[2], p[3] = 0x5b, 0x82, 0x0a, 0x2e
 	for i := 4; i < 12; i++ {
@@ -111,6 +121,7 @@ func Verif_C12_tmpl_device_path() {
 //verif:budget-is-violation
 //verif:depth 120
 func Verif_C12_tmpl_connection_buffer() {
+	vfPrint = true
 	h, p := vfTable(14)
 	copy(p, []byte{0x5b, 0x81, 0x0c, 'A', 'A', 'A', 'A', 0x00, 0x02, 0x11, 0x04, 0x0a})
 	// p[12] (declared buffer length) and p[13] stay symbolic
@@ -124,6 +135,7 @@ func Verif_C12_tmpl_connection_buffer() {
 //verif:budget-is-violation
 //verif:depth 120
 func Verif_C12_tmpl_nested_buffer() {
+	vfPrint = true
 	h, p := vfTable(16)
 	copy(p, []byte{0x08, 'B', 'U', 'F', '0', 0x11})
 	menu := [20]byte{0, 1, 2, 3, 4, 5, 6, 7, 8, 9, 10, 11, 12, 13, 14, 15, 16, 17, 0x41, 0xff}
@@ -142,6 +154,7 @@ func Verif_C12_tmpl_nested_buffer() {
 //verif:budget-is-violation
 //verif:depth 120
 func Verif_C12_tmpl_scope_resolution() {
+	vfPrint = true
 	h, p := vfTable(18)
 	copy(p, []byte{0x08, 0x5c, 0x2e})
 	copy(p[7:], []byte{'F', 'O', 'O', '0', 0x00, 0x10, 0x05})
@@ -158,8 +171,19 @@ func Verif_C12_tmpl_scope_resolution() {
 //verif:budget-is-violation
 //verif:depth 120
 func Verif_C12_tmpl_scope_body() {
+	vfPrint = false
 	n := 1 + zzverif.Choice("len", 2)
 	h, p := vfTable(7 + n)
 	copy(p, []byte{0x10, byte(6 + n), 0x5c, '_', 'S', 'B', '_'})
+	vfParse(h)
+}
+
+// Method whose PkgLength cuts its name short: 14 03 <2 arbitrary bytes> (rejected, leaves a half-built Method behind).
+//verif:budget-is-violation
+//verif:depth 120
+func Verif_C12_tmpl_method_truncated() {
+	vfPrint = true
+	h, p := vfTable(4)
+	p[0], p[1] = 0x14, 0x03
 	vfParse(h)
 }
